@@ -193,7 +193,9 @@ def check_doc(doc, tmp, counters, via_cli=False, compress=False):
     counters["text_scans"] = counters.get("text_scans", 0) + 1
     a = vcfdiff.load(path)
     b = vcfdiff.load(out1)
-    diffs = vcfdiff.compare(a, b, _gt_policy)
+    # HS (haploid phase sets of polyphase) is phase information of WhatsHap's own making and is removed with PS/HP/PQ; a header
+    # that declares the ID for something else loses that declaration too (the ID is reserved, unphase cannot tell the two apart)
+    diffs = vcfdiff.compare(a, b, _gt_policy, ignore_format=("HP", "PS", "PQ", "HS"), header_may_lose=("HP", "PS", "PQ", "HS"))
     counters["diff_checked"] = counters.get("diff_checked", 0) + 1
     counters["records_compared"] = counters.get("records_compared", 0) + len(a["records"])
     if diffs:
